@@ -56,6 +56,11 @@ pub fn generate(prop: &str, seed: u64, idx: u64, tier: Tier) -> Plan {
     p.latency_us = [r.range(200, 40_000), r.range(200, 40_000)];
     p.sched = Sched { rng_seed: r.next(), defer_pct: if r.chance(60) { 0 } else { r.range(1, 30) as u8 } };
     p.heal_at_ms = 0;
+    // in a quarter of the runs the answerer sends its answer first and applies it locally later - possibly only
+    // after the transports are up
+    if r.chance(25) {
+        p.knobs.insert("ans_late_ms".into(), *r.pick(&[1i64, 40, 400, 3000, 9000]));
+    }
     p
 }
 
@@ -76,7 +81,7 @@ pub async fn run(ctx: &Ctx) {
     ctx.net.install_binder();
     let mut a = Peer::new(ctx, &k, 0);
     let mut b = Peer::new(ctx, &k, 1);
-    let fail = |what: String| ctx.violate("C10.connect", format!("{what} [mode={} mix={} bundle={} mux={} lite={} udpmux={} latch={} compat={} offerer={} sig_delay_ms={}]", k.mode, k.mix, k.bundle, k.mux, k.lite, k.udpmux, k.latch, k.compat, k.offerer, ctx.plan.knob("sig_delay_ms", 0)));
+    let fail = |what: String| ctx.violate("C10.connect", format!("{what} [mode={} mix={} bundle={} mux={} lite={} udpmux={} latch={} compat={} offerer={} sig_delay_ms={} ans_late_ms={}]", k.mode, k.mix, k.bundle, k.mux, k.lite, k.udpmux, k.latch, k.compat, k.offerer, ctx.plan.knob("sig_delay_ms", 0), ctx.plan.knob("ans_late_ms", 0)));
     {
         let (off, ans) = if k.offerer == 0 { (&mut a, &mut b) } else { (&mut b, &mut a) };
         if k.has_dc() {
